@@ -402,8 +402,41 @@ def r4_array(ctx, F, rule="C04.R4"):
                   fn=f)
 
 
+MUT_VIEW = r"(DictMut::<'v>::from_value|ListData::<'v>::from_value_mut|SetMut::<'v>::from_value)$"
+
+
+def r5_mutators_acquire(ctx, F):
+    """a native method that acquires the mutable view of a list/dict/set on some path (so: a mutator) acquires it on
+    every path that returns success: the acquisition is where a frozen container (and one being iterated) is rejected,
+    so a successful return that bypasses it lets the operation succeed on a frozen value"""
+    from kern import calls_to, natives
+    n_m = 0
+    for n in natives(F):
+        if n.impl is None:
+            continue
+        f = n.impl
+        fs = [f] + list(F.closures_of(f))
+        anywhere = [c for g in fs for c in calls_to(F, g, MUT_VIEW) if c.bb not in g.cleanup]
+        if not anywhere:
+            continue
+        n_m += 1
+        own = [c for c in calls_to(F, f, MUT_VIEW) if c.bb not in f.cleanup]
+        err = [st.bb for st in f.stmts if st.kind == "agg adt std::result::Result::Err"] + [
+            c.bb for c in f.calls if c.name.endswith("from_residual")]
+        ty = re.search(r"(\w+?)_METHODS_STATICS", n.builder.qpath)
+        nm = (ty.group(1).lower() + "." if ty else "") + n.name
+        ctx.check(bool(own) and f.must_pass_from_entry([c.bb for c in own] + err, f.returns()), "C04.R5",
+                  "mutator-acquires-mut-view:" + nm,
+                  "every successful path passes the mutable-view acquisition (frozen / iterated containers are rejected there)",
+                  "`%s` can return successfully without acquiring the mutable view (DictMut/ListData::from_value_mut/"
+                  "SetMut): on that path the method succeeds on a frozen container (and on one that is being iterated) "
+                  "instead of failing" % nm, fn=f)
+    ctx.floor("C04.R5", "mutator natives", n_m, 17, inventory=True)
+
+
 def run(ctx):
     F = ctx.facts("core")
+    r5_mutators_acquire(ctx, F)
     vb = ValueBearing(F)
     r1_freeze(ctx, F, vb)
     r2_list(ctx, F)
